@@ -34,7 +34,7 @@ func run(c *hl.Ctx) error {
 		return nil
 	}
 	r := c.Rand()
-	n := c.Pick(3000, 150000)
+	n := c.Pick(3000, 60000)
 	for i := 0; i < n; i++ {
 		g := semlib.New(r, semlib.Opts{MaxDecls: 40, MaxDepth: 4, Underscore: true, QuotedKw: true, ErrSeeds: true, Nulls: true})
 		src := g.Program()
@@ -51,7 +51,7 @@ func run(c *hl.Ctx) error {
 		}
 		c.Emit(cc)
 	}
-	m := c.Pick(1500, 60000)
+	m := c.Pick(1500, 20000)
 	for i := 0; i < m; i++ {
 		g := semlib.New(r, semlib.Opts{MaxDecls: 25, MaxDepth: 4, Underscore: true, QuotedKw: i%2 == 0, ErrSeeds: false, Nulls: i%3 != 0})
 		src := g.Program()
